@@ -7,6 +7,9 @@ use crate::marker::StaticOrDynamic;
 use crate::regex_radix_tree::{RegexTreeMap, Trace as TreeTrace};
 #[cfg(feature = "dot")]
 use dot_graph::{Edge, Graph, Node};
+#[cfg(kani)]
+use crate::verif_shim::map::{HashMap, HashSet};
+#[cfg(not(kani))]
 use std::collections::{HashMap, HashSet};
 use std::sync::Arc;
 
